@@ -17,7 +17,9 @@ RULE = ('Tables of 0-40 atoms drawn from small value pools (so that conditions h
         'attributes (rowID always among them) plus "*", then seeded random conjunctions of 0-4 positive/negated conditions over every '
         'attribute type (text, int, real, rowID), scalar and list valued, values present and absent, string forms of numbers, numbers '
         'against text attributes; get_xyz / get_residues / get_chains on random selections; a malformed stream (unknown attribute / '
-        'condition names, padded names, non-integer rowID values, letter-case variants of names). A case is non-trivial when distinct '
+        'condition names, padded names, non-integer rowID values, letter-case variants of names). Every third query carries its condition '
+        'values in NumPy scalars (np.int64 rowIDs, np.float64, np.str_), every fourth is issued twice on the same object (answers must '
+        'coincide); all queries of a table, well-formed and malformed, share ONE object. A case is non-trivial when distinct '
         'by content and its answer is neither empty nor the whole table, or it is an error case.')
 ASSUMPTIONS = ['SQLite compares a bound value with a column as Model.sqlEq says (affinity of the column applied to the value; numbers '
                'numerically; text byte-wise): sampled on every case, not proved',
@@ -319,16 +321,17 @@ def cond_kind(k, v):
     return ('neg' if k.startswith('no_') else 'pos') + ':' + KIND.get(key, 'unknown') + (':list%d' % min(len(v), 3) if isinstance(v, list) else ':scalar') + ':' + '+'.join(sorted(t))
 
 
-def in_spec_domain(columns, kws):
+def in_spec_domain(columns, kws, names=None):
     """is the call inside the domain the theorems speak about (see Props/C03: ColsOK, KeysOK, RowIDInts)"""
+    COLS = names or COLNAMES
     parts = columns.split(',')
     if columns != '*':
         if parts.count('rowID') > 1 or any(p.strip() == 'rowID' and p != 'rowID' for p in parts):
             return False
     for k, v in kws:
         key = k[3:] if k.startswith('no_') else k
-        exact = key in COLNAMES
-        ci = key.lower() in [c.lower() for c in COLNAMES] or key.lower() in ('oid', '_rowid_')
+        exact = key in COLS
+        ci = key.lower() in [c.lower() for c in COLS] or key.lower() in ('oid', '_rowid_')
         if ci and not exact:
             return False                                    # letter-case variants / rowid aliases: accepted by SQLite
         if key == 'rowID':
@@ -338,9 +341,15 @@ def in_spec_domain(columns, kws):
     return True
 
 
+_MK = [0]
+
+
 def mk_get(tid, rows, columns, kws, family, op='get', tn='ATOM', nmodel=0):
+    _MK[0] += 1
     c = {'op': op, 'tid': tid, 'db': db_json([('ATOM', rows)], nmodel=nmodel), 'tn': tn, 'kw': jkw(kws), 'family': family,
-         'domain': in_spec_domain(columns if op == 'get' else 'x', kws)}
+         'domain': in_spec_domain(columns if op == 'get' else 'x', kws),
+         # container / dtype of the condition values (where the library accepts them) and repeated calls on the same object
+         'carrier': 'np' if _MK[0] % 3 == 0 else 'py', 'twice': _MK[0] % 4 == 0}
     if op == 'get':
         c['columns'] = columns
     return c
@@ -433,7 +442,24 @@ def search_cases(ctx):
 
 
 def driver_line(c):
-    return {k: v for k, v in c.items() if k not in ('family', 'tid', 'domain')}
+    return {k: v for k, v in c.items() if k not in ('family', 'tid', 'domain', 'carrier', 'twice')}
+
+
+def np_carry(kw):
+    """the same condition values carried by NumPy scalars where sqlite3 / the library accept them: rowID values as
+    np.int64 (they go through int(v + 1)), floats as np.float64, strings as np.str_"""
+    def cv(k, x):
+        key = k[3:] if k.startswith('no_') else k
+        if isinstance(x, bool):
+            return x
+        if isinstance(x, int):
+            return np.int64(x) if key == 'rowID' else x
+        if isinstance(x, float):
+            return np.float64(x)
+        if isinstance(x, str):
+            return np.str_(x)
+        return x
+    return {k: ([cv(k, x) for x in v] if isinstance(v, list) else cv(k, v)) for k, v in kw.items()}
 
 
 _DB = {}
@@ -455,9 +481,15 @@ def db_of(c):
 def impl(ctx, c):
     db = db_of(c)
     kw = kw_py(c['kw'])
+    if c.get('carrier') == 'np':
+        kw = np_carry(kw)
     nm = c['db']['nModel']
     if c['op'] == 'get':
-        r = call(lambda: db.get(c['columns'], tablename=c['tn'], **kw))
+        r = call(lambda: db.get(c['columns'], tablename=c['tn'], **dict(kw)))
+        if c.get('twice'):
+            r2 = call(lambda: db.get(c['columns'], tablename=c['tn'], **dict(kw)))
+            if (r2 if is_err(r2) else canon(r2)) != (r if is_err(r) else canon(r)):
+                return {'second_call_differs': [short(r), short(r2)]}
     elif c['op'] == 'get_xyz':
         r = call(lambda: db.get_xyz(tablename=c['tn'], **kw))
     elif c['op'] == 'get_residues':
@@ -525,6 +557,21 @@ def extra_checks(ctx):
         if a != [i] or b != [rows[i][0]]:
             bad = {'i': i, 'get rowID': a, 'serial': b}
     res.append({'name': 'rowID as attribute = rowID as condition = position', 'ok': bad is None, 'case': bad, 'detail': ''})
+    # a scalar acts as a one-element list (every attribute type, positive and negated), also after an exception
+    rng = ctx.rng
+    bad = None
+    for _ in range(ctx.scale(300, 3000)):
+        key = rng.choice(COLNAMES)
+        v = rand_value(rng, key, len(rows), rows)
+        k = rng.choice(['', 'no_']) + key
+        if rng.random() < 0.2:
+            call(lambda: db.get('x', foo=1))                 # an exception on the same object in between
+        a = call(lambda: db.get('rowID', **{k: v}))
+        b = call(lambda: db.get('rowID', **{k: [v]}))
+        if a != b:
+            bad = {'key': k, 'value': jval(v), 'scalar': short(a), 'one-element list': short(b)}
+            break
+    res.append({'name': 'scalar condition = one-element list condition (also after an exception on the object)', 'ok': bad is None, 'case': bad, 'detail': ''})
     db2 = build(rows)
     call(lambda: db2.update('temp', [[77.0]], rowID=[3]))
     t = call(lambda: db2.get('temp'))
